@@ -79,6 +79,7 @@ func expandModelMsg(m *ModelMsg, acc *accState) *expMsg {
 		em.dontCare[k] = v
 	}
 	g := m.Global
+	overridden := map[int]bool{} // destinations that were transmitted and then replaced by their source's slice
 	// src (scalar uint) -> dst plain copy of the 16-bit value
 	copy16 := func(src, dst string) {
 		sp, dp := fieldByName(g, src), fieldByName(g, dst)
@@ -93,9 +94,10 @@ func expandModelMsg(m *ModelMsg, acc *accState) *expMsg {
 		if !ok || sv == 0xFFFF {
 			return // absent or invalid source: destination untouched
 		}
+		// a valid source decides the destination even when the destination was
+		// also transmitted (the statement has no exception for that case)
 		if _, explicit := m.Fields[dp.SIndex]; explicit {
-			em.dontCare[dp.SIndex] = true // don't-care 5
-			return
+			overridden[dp.SIndex] = true
 		}
 		em.fields[dp.SIndex] = "u" + strconv.FormatUint(sv&0xFFFF, 10)
 		em.comp[dp.SIndex] = true
@@ -109,8 +111,11 @@ func expandModelMsg(m *ModelMsg, acc *accState) *expMsg {
 			em.accum[dp.SIndex] = true
 		}
 		if _, explicit := m.Fields[dp.SIndex]; explicit {
-			em.dontCare[dp.SIndex] = true
-			return
+			if accumulated {
+				em.dontCare[dp.SIndex] = true // don't-care 5: explicit running total next to its compressed source
+				return
+			}
+			overridden[dp.SIndex] = true
 		}
 		em.fields[dp.SIndex] = "u" + strconv.FormatUint(v, 10)
 		em.comp[dp.SIndex] = true
@@ -172,7 +177,9 @@ func expandModelMsg(m *ModelMsg, acc *accState) *expMsg {
 			break
 		}
 		dests := []string{"Score", "OpponentScore", "RearGearNum", "RearGear", "FrontGearNum", "FrontGear"}
-		if em.dontCare[dp.SIndex] || em.dontCare[ep.SIndex] {
+		// data transmitted next to a valid data16: data = data16, but the
+		// statement is silent on which of the two the gear/score bytes follow
+		if em.dontCare[dp.SIndex] || em.dontCare[ep.SIndex] || overridden[dp.SIndex] {
 			for _, n := range dests {
 				if p := fieldByName(g, n); p != nil {
 					em.dontCare[p.SIndex] = true
